@@ -76,10 +76,12 @@ TOP = {
     'compile_unification': ('compile_unification_src', ['str', 'sterm', 'code'], [0, 1, 2], 'code'),
 }
 NONRECURSIVE = {'compile_unification'}
+# functions with a loop: translated into the option monad (None = IndexError), with the attribute self.head_args_by_pos as an explicit parameter
+LOOPFUN = {'compile_arg_list_unification': ('compile_arg_list_unification_src', ['sterms', 'code'], 'code')}
 # methods that are referred to by name (hand-written Gallina, tied elsewhere)
 EXTERNAL_MAP_FUNS = {'compile_expression': 'compile_expression_src'}
 
-GTYPE = {'body': 'body', 'label': 'nat', 'bool': 'bool', 'code': 'list stmt', 'sterm': 'sterm', 'expr': 'expr', 'str': 'str'}
+GTYPE = {'body': 'body', 'label': 'nat', 'bool': 'bool', 'code': 'list stmt', 'sterm': 'sterm', 'expr': 'expr', 'str': 'str', 'sterms': 'list sterm'}
 
 class Val:
     __slots__ = ('ty', 'tx', 'fields')
@@ -248,6 +250,7 @@ class Translator:
         self.cur = None          # (python name of the function being translated)
         self.inlining = []
         self.used = set()
+        self.partial = False
 
     # -- side conditions on helper methods
     def check_debug(self):
@@ -371,6 +374,29 @@ class Translator:
                     return k(Val('exprs', '[' + '; '.join(v.tx for v in vs) + ']'), st2)
                 self.err('list display with elements of types %s' % sorted(tys), e)
             return self.eval_list(e.elts, env, st, after)
+        if (isinstance(e, ast.BinOp) and isinstance(e.op, (ast.Add, ast.Sub)) and isinstance(e.right, ast.Constant)
+                and type(e.right.value) is int and e.right.value >= 0):
+            # integer arithmetic on a loop index with a known lower bound (so that natural-number subtraction is exact and an index is never negative)
+            def arith(a, st2):
+                if a.ty != 'int':
+                    self.err('arithmetic on a value of type %s' % a.ty, e)
+                c = e.right.value
+                if isinstance(e.op, ast.Sub):
+                    if a.fields['min'] < c:
+                        self.err('subtraction that may become negative', e)
+                    return k(Val('int', '(%s - %d)' % (a.tx, c), {'min': a.fields['min'] - c}), st2)
+                return k(Val('int', '(%s + %d)' % (a.tx, c), {'min': a.fields['min'] + c}), st2)
+            return self.eval(e.left, env, st, arith)
+        if isinstance(e, ast.Subscript):
+            if not self.partial:
+                self.err('subscript in a function translated as total', e)
+            def sub(vs, st2):
+                l, i = vs
+                if l.ty != 'sterms' or i.ty != 'int':
+                    self.err('subscript %s[%s]' % (l.ty, i.ty), e)
+                x = self.fresh('x')
+                return 'match nth_error %s %s with\n| Some %s =>\n%s\n| None => None (* IndexError *)\nend' % (l.tx, i.tx, x, k(Val('sterm', x), st2))
+            return self.eval_list([e.value, e.slice], env, st, sub)
         if isinstance(e, ast.BinOp) and isinstance(e.op, ast.Add):
             def plus(a, b, st3):
                 if a.ty == 'str' and b.ty == 'str':       # str = list of code points: concatenation
@@ -415,6 +441,12 @@ class Translator:
                         txs = [self.want(v, t, e) for v, t in zip(vs, tys)]
                         return k(Val(rty, '(%s)' % ' '.join([g] + txs) if txs else g), st2)
                     return self.eval_list(e.args, env, st, after)
+                if c == 'str' and len(e.args) == 1:
+                    def tostr(v, st2):
+                        if v.ty != 'int':
+                            self.err('str() of a value of type %s' % v.ty, e)
+                        return k(Val('str', '(dec_of_nat %s)' % v.tx), st2)      # str(n) for a natural number: its decimal digits
+                    return self.eval(e.args[0], env, st, tostr)
                 self.err('call of %s is not in the vocabulary' % c, e)
             if _self_attr(e.func):
                 return self.eval_method(e, env, st, k)
@@ -528,6 +560,17 @@ class Translator:
             if v.ty != 'sterms' or not v.tx.isidentifier():
                 self.err('== [] on a value of type %s' % v.ty, t)
             return 'match %s with\n| [] =>\n%s\n| _ :: _ =>\n%s\nend' % (v.tx, kt(env, st), kf(env, st))
+        # self.head_args_by_pos[<int>] == None
+        if (isinstance(t, ast.Compare) and len(t.ops) == 1 and isinstance(t.ops[0], ast.Eq) and isinstance(t.comparators[0], ast.Constant)
+                and t.comparators[0].value is None and isinstance(t.left, ast.Subscript) and _self_attr(t.left.value, 'head_args_by_pos')):
+            if not self.partial:
+                self.err('self.head_args_by_pos in a function translated without it', t)
+            def idx(i, st2):
+                if i.ty != 'int':
+                    self.err('index of type %s' % i.ty, t)
+                return ('match nth_error pos %s with\n| None => None (* IndexError *)\n| Some None =>\n%s\n| Some (Some _) =>\n%s\nend'
+                        % (i.tx, kt(env, st2), kf(env, st2)))
+            return self.eval(t.left.slice, env, st, idx)
         # a boolean expression
         def after(v, st2):
             return 'if %s then\n%s\nelse\n%s' % (self.want(v, 'bool', t), kt(env, st2), kf(env, st2))
@@ -584,7 +627,70 @@ class Translator:
             return self.cond(s.test, env, st,
                              lambda env2, st2: self.block(s.body, env2, st2, ret, cont),
                              lambda env2, st2: self.block(s.orelse, env2, st2, ret, cont))
+        if isinstance(s, ast.For):
+            return self.for_down(s, rest, env, st, ret, fall)
         self.err('statement %s is not in the vocabulary' % type(s).__name__, s)
+
+    def for_down(self, s, rest, env, st, ret, fall):
+        """for i in range(len(<list>), 0, -1): <block that re-assigns ONE local of type code>   ->   for_down (length l) (fun i c => ..) c0
+        (for_down k f a runs f k, f (k-1), .., f 1: see the generated prelude)"""
+        if not self.partial or st is not None:
+            self.err('for loop in a function translated as total', s)
+        it = s.iter
+        ok = (not s.orelse and isinstance(s.target, ast.Name) and isinstance(it, ast.Call) and isinstance(it.func, ast.Name) and it.func.id == 'range'
+              and len(it.args) == 3 and not it.keywords
+              and isinstance(it.args[0], ast.Call) and isinstance(it.args[0].func, ast.Name) and it.args[0].func.id == 'len' and len(it.args[0].args) == 1
+              and isinstance(it.args[1], ast.Constant) and it.args[1].value == 0 and type(it.args[1].value) is int
+              and isinstance(it.args[2], ast.UnaryOp) and isinstance(it.args[2].op, ast.USub) and isinstance(it.args[2].operand, ast.Constant)
+              and it.args[2].operand.value == 1 and type(it.args[2].operand.value) is int)
+        if not ok:
+            self.err('for loop is not of the form `for i in range(len(l), 0, -1)`', s)
+        for n in ast.walk(s):
+            if isinstance(n, (ast.Break, ast.Continue, ast.Return)):
+                self.err('%s inside a for loop' % type(n).__name__, n)
+        l = self.path(it.args[0].args[0], env)
+        if l.ty != 'sterms':
+            self.err('len() of a value of type %s' % l.ty, s)
+        assigned = {t.id for n in ast.walk(s) if isinstance(n, ast.Assign) for t in n.targets if isinstance(t, ast.Name)}
+        carried = sorted(a for a in assigned if a in env.vars)
+        if s.target.id in assigned or len(carried) != 1 or env.vars[carried[0]].ty != 'code':
+            self.err('the loop must re-assign exactly one local variable of type code defined before it (found %s)' % carried, s)
+        cv = carried[0]
+        i, c, r = self.fresh('i'), self.fresh('c'), self.fresh('c')
+        env_in = env.bind(s.target.id, Val('int', i, {'min': 1})).bind(cv, Val('code', c))
+        def no_ret(v, st2):
+            self.err('return inside a for loop', s)
+        def end_of_body(env2, st2):
+            return 'Some %s' % self.want(env2.vars[cv], 'code', s)
+        body = self.block(s.body, env_in, None, no_ret, end_of_body)
+        # names first assigned inside the loop are not visible after it in this vocabulary (they would be unbound if the loop ran 0 times)
+        after = self.block(rest, env.bind(cv, Val('code', r)), None, ret, fall)
+        return ('match for_down (length %s) (fun %s %s =>\n%s) %s with\n| Some %s =>\n%s\n| None => None\nend'
+                % (l.tx, i, c, body, env.vars[cv].tx, r, after))
+
+    def loop_function(self, pyname):
+        f = self.methods.get(pyname)
+        if f is None:
+            raise TieError('method %s not found' % pyname)
+        g, ptys, rty = LOOPFUN[pyname]
+        a = f.args
+        if a.vararg or a.kwarg or a.kwonlyargs or a.posonlyargs or a.defaults or len(a.args) != len(ptys) + 1:
+            raise TieError('%s: parameters not understood' % pyname, f)
+        self.cur, self.counter, self.used_in_current, self.partial, self.top_ret = pyname, 0, set(), True, None
+        names = {'sterms': 'args', 'code': 'c'}
+        gps = [names[t] for t in ptys]
+        env = Env({p.arg: Val(t, gp) for p, t, gp in zip(a.args[1:], ptys, gps)})
+        def ret(v, st):
+            return 'Some %s' % self.want(v, rty, f)
+        def fall(env2, st2):
+            raise TieError('%s can end without a return' % pyname, f, pyname)
+        try:
+            body = self.block(f.body, env, None, ret, fall)
+        finally:
+            self.partial = False
+        self.cur = None
+        binders = '(pos : list (option str)) ' + ' '.join('(%s : %s)' % (gp, GTYPE[t]) for gp, t in zip(gps, ptys))
+        return indent('Definition %s %s : option (%s) :=\n%s.' % (g, binders, GTYPE[rty], body))
 
     # -- top-level functions
     def function(self, pyname):
@@ -655,9 +761,13 @@ Import ListNotations.
 From YP Require Import Base.Str Lang.Ast Comp.IR Comp.CompileBody.
 Local Open Scope string_scope.
 Local Open Scope list_scope.
+
+(* Python's `for i in range(k, 0, -1): a = f(i, a)` (f may raise IndexError = None): f k, then f (k-1), .., f 1 *)
+Fixpoint for_down {A : Type} (k : nat) (f : nat -> A -> option A) (a : A) : option A :=
+  match k with O => Some a | S k' => match f (S k') a with Some a' => for_down k' f a' | None => None end end.
 '''
 
-ORDER = ['compile_expression', 'compile_unification', 'has_local_cut', 'localize_cuts', 'compile_body']
+ORDER = ['compile_expression', 'compile_unification', 'compile_arg_list_unification', 'has_local_cut', 'localize_cuts', 'compile_body']
 
 def translate(repo):
     """returns (gallina text of the definitions, {python function: gallina name}); raises TieError"""
@@ -678,6 +788,10 @@ def translate(repo):
     t = Translator(gen, vis)
     parts, funs = [], {}
     for py in ORDER:
+        if py in LOOPFUN:
+            parts.append('(* %s, yp_generator.py line %d *)\n%s' % (py, t.methods[py].lineno if py in t.methods else 0, t.loop_function(py)))
+            funs[py] = LOOPFUN[py][0]
+            continue
         parts.append('(* %s, yp_generator.py line %d *)\n%s' % (py, t.methods[py].lineno if py in t.methods else 0, t.function(py)))
         funs[py] = TOP[py][0]
     return HEADER % 'src/yldprolog/yp_generator.py' + '\n' + '\n\n'.join(parts) + '\n', funs
